@@ -3,210 +3,157 @@ import MakoModel.ModFile.LemmasConc
 /-!
 # C15 - module files are regenerated when stale and never observed half-written
 
-Model: `MakoModel/ModFile/Model.lean` (the writer is the *regenerated* primitive list
-`Generated.ModFile.writerOps`; staleness operator, magic number, re-check, `verify_directory` bound are
-regenerated too).  All theorems quantify over **all histories** (`List HOp`: modify the source with any
-mtime, delete / replace the module file, move the clock, construct with any plan of faults), all **crash
-points** (`Plan.crash = some k`, every `k`, actions are atomic, a write passes through a half-written
-state), all **faults** (`Plan.fates*`: any primitive raises; a write may be short) and all **schedules**
-(`List Nat` of process ids).
+Model: `MakoModel/ModFile/Model.lean`.  The writer is the *regenerated* primitive list
+`Generated.ModFile.writerOps` (read from the AST of `_compile_module_file`); the staleness operator, the
+magic number, the two re-check reasons (`magicRecheck`, `fileRecheck`), "writes until complete"
+(`writeLoops`), "drops the cached bytecode after a write" (`dropsBytecode`) and the `verify_directory` bound
+are regenerated as well; each is tied to the proofs by a `decide`d obligation (`writerOps_safe`,
+`writeLoops_on`, `dropsBytecode_on`, `staleCmp_is_lt`, `magicRecheck_on`, `fileRecheck_on`, …), so that a
+change of the code either keeps the obligations or breaks a named one.
 
-Two recorded defects of the unchanged tree appear as guards:
+All theorems quantify over **all histories** (`List HOp`: modify the source with any mtime, delete the
+module file, replace it by any complete module - other magic number, other template file, any mtime -,
+move the clock, construct with any plan), all **crash points** (`Plan.crash = some k`: the process dies
+after `k` atomic file-system actions, a write passes through a half-written state), all **faults**
+(`Plan.fates*`: any primitive raises, a write may be short) and all **schedules** (`List Nat`).
 
-* **F4** (short write): `Plan.guard` = "no `short` fate, or the code writes until complete (`writeLoops`)".
-  When `writeLoops` is regenerated as `true` the guard is `Or.inl rfl` and disappears.
-* **F-C15-2** (stale bytecode cache): `PycCoherent`/`PycFresh` = "the cache entry of the module path, if its
-  (mtime second, size) key matches the file, was compiled from that file".
-
-```
-OPEN (false of the unchanged tree, see the two `_counterexample` theorems):
-
-theorem path_never_partial_full (w0 : World) (h : List HOp) (p : Plan) (hw0 : Good w0.fs)
-    (hh : ∀ op ∈ h, ∀ c m, op = .replaceMod c m → c.complete = true) :      -- no guard on the plans, no `hfix`
-    let w := runH w0 h
-    Good w.fs ∧ ((construct defaultWriter w p).world.fs .mod = w.fs .mod ∨
-      ∃ f, (construct defaultWriter w p).world.fs .mod = some f ∧ IsNew w f)
-
-theorem after_rewrite_current_full (w0 : World) (h : List HOp) (p : Plan) (hw0 : Good w0.fs) (hh : HistOk h)
-    (hp : p.noFault) :                                                       -- no guard on the bytecode cache
-    let w := runH w0 h
-    ∃ c t, (construct defaultWriter w p).res = .served c ∧ … ∧ c.src = w.srcVer
-```
+What is assumed about a history (`HistOkFrom`): a module file installed by *somebody else* is complete and
+does not collide in (mtime second, size) with the bytecode-cache entry of the module path - CPython
+validates cached bytecode by exactly that key, and no code in mako can repair a collision it did not
+cause.  Mako's own writes cannot collide any more: the entry is removed after every (re)write.
+The two defects recorded in the first round (F4 short write, F-C15-2 stale bytecode after a same-second
+rewrite) were repaired in /repo; their guards and counterexamples are gone, the obligations
+`writeLoops_on` / `dropsBytecode_on` break if a repair is undone.
 -/
 namespace MakoModel.C15
 open MakoModel.ModFile MakoModel.Generated.ModFile
 
 /-! ## (re)written exactly when due, otherwise reused unchanged -/
 
-/-- For every history and every world it reaches: a construct without faults writes the module iff it is
-missing, older than the source or carries another magic number; it writes at most once; when nothing is
-due the whole module directory is untouched and no file-system action is performed.
-Guard (F-C15-2): the bytecode cache of the module path is coherent with the file. -/
-theorem rewrite_iff_due_partial (w0 : World) (h : List HOp) (p : Plan) (hw0 : Good w0.fs) (hh : HistOk h)
-    (hp : p.noFault) (hcoh : PycCoherent (runH w0 h)) (hfresh : PycFresh (runH w0 h) p) :
-    ((construct defaultWriter (runH w0 h) p).writes ≥ 1 ↔ Due (runH w0 h)) ∧
+/-- For every history and the world it reaches: a construct without faults writes the module iff it is
+missing, older than the source, carries another magic number **or was generated from another template
+file**; it writes at most once; when nothing is due the whole module directory is untouched and no
+file-system action is performed. -/
+theorem rewrite_iff_due (w0 : World) (h : List HOp) (p : Plan) (hw0 : Inv w0) (hh : HistOkFrom w0 h)
+    (hp : p.noFault) :
+    ((construct defaultWriter (runH w0 h) p).writes ≥ 1 ↔
+      ((runH w0 h).fs .mod = none ∨ ∃ f, (runH w0 h).fs .mod = some f ∧
+        (f.mtime < (runH w0 h).srcMtime ∨ f.content.magic ≠ magicNumber ∨ f.content.file ≠ (runH w0 h).fileId))) ∧
     (construct defaultWriter (runH w0 h) p).writes ≤ 1 ∧
     (¬ Due (runH w0 h) → (construct defaultWriter (runH w0 h) p).world.fs = (runH w0 h).fs ∧
       (construct defaultWriter (runH w0 h) p).acts = []) :=
-  rewrite_iff_due_core w0 h p hw0 hh hp hcoh (Or.inr hfresh)
+  rewrite_iff_due_at (runH w0 h) p (runH_inv h w0 hh hw0) hp
 
-/-- The same without a guard, for interpreters that have no bytecode cache for the module path
-(`sys.dont_write_bytecode`, no `__pycache__` entry): every history keeps it that way. -/
-theorem rewrite_iff_due (w0 : World) (h : List HOp) (p : Plan) (hw0 : Good w0.fs) (hh : HistOk h)
-    (hp : p.noFault) (hpyc : NoPyc w0) :
-    ((construct defaultWriter (runH w0 h) p).writes ≥ 1 ↔ Due (runH w0 h)) ∧
-    (construct defaultWriter (runH w0 h) p).writes ≤ 1 ∧
-    (¬ Due (runH w0 h) → (construct defaultWriter (runH w0 h) p).world.fs = (runH w0 h).fs ∧
-      (construct defaultWriter (runH w0 h) p).acts = []) :=
-  rewrite_iff_due_partial w0 h p hw0 hh hp (runH_nopyc h w0 hpyc).coherent ((runH_nopyc h w0 hpyc).fresh p)
-
-/-- the hypotheses are satisfiable, and both sides of the equivalence occur -/
+/-- the hypotheses are satisfiable by a non-trivial history (written, source touched older / equal / newer,
+replaced by another generator version, deleted, a raising and a dying construct), and both sides occur -/
 example : (construct defaultWriter (runH World.init exHist) {}).writes = 1 ∧ Due (runH World.init exHist) :=
-  have h := rewrite_iff_due World.init exHist {} init_good exHist_ok ⟨rfl, rfl, rfl⟩ init_nopyc
+  have h := rewrite_iff_due World.init exHist {} init_inv_world exHist_okFrom ⟨rfl, rfl, rfl⟩
   ⟨by decide, h.1.1 (by decide)⟩
 example : (construct defaultWriter (runH World.init (exHist ++ [.setClock 13, .construct {}])) {}).writes = 0 := by
+  decide
+/-- the fourth reason: a complete, fresh module of the right magic number, generated from another file -/
+example : (construct defaultWriter (runH World.init
+    (exHist ++ [.setClock 13, .construct {}, .replaceMod ⟨4, magicNumber, true, 50, 1, 7⟩ 20])) {}).writes = 1 := by
   decide
 
 /-! ## the `module_writer` hook -/
 
 /-- A user-supplied `module_writer` (whatever it does to the file system: `eff`) is called iff a (re)write
-is due; every call receives the complete module generated from the current source and the module path;
-a hook that installs what it is given is called exactly once. -/
+is due; every call receives the complete module generated from the current source of this template file and
+the module path; a hook that installs what it is given is called exactly once. -/
 theorem writer_called_iff_due (eff : Content → FS → FS) (w0 : World) (h : List HOp) (p : Plan)
-    (hw0 : Good w0.fs) (hh : HistOk h) (hcoh : PycCoherent (runH w0 h)) :
+    (hw0 : Inv w0) (hh : HistOkFrom w0 h) :
     ((construct (hookWriter eff) (runH w0 h) p).calls ≠ [] ↔ Due (runH w0 h)) ∧
     (∀ x ∈ (construct (hookWriter eff) (runH w0 h) p).calls, CallOk (runH w0 h) x) ∧
-    ((runH w0 h).pyc = none → (∀ c fs, ∃ t, (eff c fs) .mod = some ⟨c, t⟩) → Due (runH w0 h) →
+    ((∀ c fs, ∃ t, (eff c fs) .mod = some ⟨c, t⟩) → Due (runH w0 h) →
       (construct (hookWriter eff) (runH w0 h) p).calls.length = 1) := by
-  have hgood := runH_good h w0 hh hw0
+  obtain ⟨hgood, hcoh⟩ := runH_inv h w0 hh hw0
   exact ⟨hook_called_iff eff _ p hgood hcoh, hook_calls_ok eff _ p,
-    fun hpyc hinst hdue => hook_called_once eff _ p hgood hpyc hinst hdue⟩
+    fun hinst hdue => hook_called_once eff _ p hgood hcoh (Or.inl dropsBytecode_on) hinst hdue⟩
 
 example : (construct (hookWriter fun c fs => fs.set .mod (some ⟨c, 0⟩)) (runH World.init exHist) {}).calls
-    = [(⟨4, magicNumber, true, 4, 1⟩, .mod)] := by decide
+    = [(⟨4, magicNumber, true, 4, 1, 0⟩, .mod)] := by decide
 
 /-! ## the module path never holds a half-written file -/
 
-/-- For every history - whose constructs may raise at any primitive and die after any number `k` of
-file-system actions - and for one more construct with any such plan: the module path holds no file or a
-complete module before, and afterwards it holds *what it held before* or *the complete module generated
-from the current source* - nothing else, whatever instant the writer failed or died at.
-Guard (F4): no write is short, unless the code writes until complete. -/
-theorem path_never_partial_partial (w0 : World) (h : List HOp) (p : Plan) (hw0 : Good w0.fs) (hh : HistOk h)
-    (hg : p.guard) :
+/-- **Full strength** (no guard on the plans): for every history - whose constructs may raise at any
+primitive, write short, and die after any number `k` of file-system actions - and for one more construct
+with any such plan: the module path holds no file or a complete module before, and afterwards it holds
+*what it held before* or *the complete module generated from the current source* - nothing else,
+whatever instant the writer failed or died at. -/
+theorem path_never_partial (w0 : World) (h : List HOp) (p : Plan) (hw0 : Inv w0) (hh : HistOkFrom w0 h) :
     Good (runH w0 h).fs ∧
     ((construct defaultWriter (runH w0 h) p).world.fs .mod = (runH w0 h).fs .mod ∨
       ∃ f, (construct defaultWriter (runH w0 h) p).world.fs .mod = some f ∧ IsNew (runH w0 h) f) ∧
     Good (construct defaultWriter (runH w0 h) p).world.fs := by
-  have hgood := runH_good h w0 hh hw0
-  exact ⟨hgood, construct_fs _ p hg, construct_good _ p hg hgood⟩
+  have hgood := (runH_inv h w0 hh hw0).1
+  exact ⟨hgood, construct_fs _ p (guard_all p), construct_good _ p (guard_all p) hgood⟩
 
-/-- the guard is met by plans that raise anywhere and die anywhere; the three outcomes occur -/
-example : (Plan.guard { fates1 := [.ok, .raise], crash := some 3 }) := Or.inr ⟨by simp, by simp⟩
+/-- the three outcomes occur: crash before the move, after it, a raising write over a previous module; and
+a short write is completed by the code -/
 example : ((construct defaultWriter (runH World.init exHist) { crash := some 4 }).world.fs .mod) = none := by decide
 example : ((construct defaultWriter (runH World.init exHist) { crash := some 5 }).world.fs .mod)
-    = some ⟨⟨4, magicNumber, true, 4, 1⟩, 9⟩ := by decide
+    = some ⟨⟨4, magicNumber, true, 4, 1, 0⟩, 9⟩ := by decide
 example : ((construct defaultWriter (runH World.init (exHist ++ [.construct {}, .modifySrc 20]))
-    { fates1 := [.ok, .raise] }).world.fs .mod) = some ⟨⟨4, magicNumber, true, 4, 1⟩, 9⟩ := by decide
-
-/-- **F4**: as long as the code does not write until complete (`writeLoops = false`, regenerated), the full
-statement is false of the model, as it is of the code: a short `os.write` whose result is dropped leaves a
-truncated file in the temp name, and the rename puts it at the module path. -/
-theorem path_never_partial_counterexample : writeLoops = false →
-    ((construct defaultWriter World.init { fates1 := [.ok, .short] }).world.fs .mod).map (·.content.complete)
-      = some false := by decide
-
-/-- The full statement - no guard on short writes - for code that writes until complete: once
-`writeLoops` is regenerated as `true` the hypothesis is `rfl`. -/
-theorem path_never_partial (hfix : writeLoops = true) (w0 : World) (h : List HOp) (p : Plan) (hw0 : Good w0.fs)
-    (hh : ∀ op ∈ h, ∀ c m, op = HOp.replaceMod c m → c.complete = true) :
-    Good (runH w0 h).fs ∧
-    ((construct defaultWriter (runH w0 h) p).world.fs .mod = (runH w0 h).fs .mod ∨
-      ∃ f, (construct defaultWriter (runH w0 h) p).world.fs .mod = some f ∧ IsNew (runH w0 h) f) ∧
-    Good (construct defaultWriter (runH w0 h) p).world.fs := by
-  have hok : HistOk h := by
-    intro op hop
-    cases op with
-    | replaceMod c m => exact hh _ hop c m rfl
-    | construct q => exact Or.inl hfix
-    | modifySrc m => trivial
-    | deleteMod => trivial
-    | setClock t => trivial
-  exact path_never_partial_partial w0 h p hw0 hok (Or.inl hfix)
+    { fates1 := [.ok, .raise] }).world.fs .mod) = some ⟨⟨4, magicNumber, true, 4, 1, 0⟩, 9⟩ := by decide
+example : ((construct defaultWriter World.init { fates1 := [.ok, .short] }).world.fs .mod).map (·.content.complete)
+    = some true := by decide
 
 /-! ## after a rewrite, and whenever the file was generated from the current source, the current source is served -/
 
-/-- After any history (with faults and crashes under the guard of F4), a construct without faults succeeds:
-it serves a complete module which is also what the module path holds, and that module was generated from
-the current source whenever a rewrite happened or the file on disk had been generated from the current source.
-Guard (F-C15-2): bytecode cache coherent with the file. -/
-theorem after_rewrite_current_partial (w0 : World) (h : List HOp) (p : Plan) (hw0 : Good w0.fs)
-    (hh : HistOk h) (hp : p.noFault) (hcoh : PycCoherent (runH w0 h)) (hfresh : PycFresh (runH w0 h) p) :
+/-- After any history (with faults, short writes and crashes), a construct without faults succeeds: it
+serves a complete module of the current generator version, generated from this template file, which is also
+what the module path holds; and that module was generated from the *current* source whenever a rewrite
+happened or the file on disk had been generated from the current source. -/
+theorem after_rewrite_current (w0 : World) (h : List HOp) (p : Plan) (hw0 : Inv w0) (hh : HistOkFrom w0 h)
+    (hp : p.noFault) :
     ∃ c t, (construct defaultWriter (runH w0 h) p).res = .served c ∧
       (construct defaultWriter (runH w0 h) p).world.fs .mod = some ⟨c, t⟩ ∧ c.complete = true ∧
+      c.magic = magicNumber ∧ c.file = (runH w0 h).fileId ∧
       (((construct defaultWriter (runH w0 h) p).writes ≥ 1 ∨
           ∃ f, (runH w0 h).fs .mod = some f ∧ f.content.src = (runH w0 h).srcVer) → c.src = (runH w0 h).srcVer) :=
-  after_rewrite_current_core w0 h p hw0 hh hp hcoh (Or.inr hfresh)
+  after_rewrite_current_at (runH w0 h) p (runH_inv h w0 hh hw0) hp
 
-/-- The same for code that removes the cached bytecode after every (re)write (`dropsBytecode`, regenerated;
-`false` on the unchanged tree): the collision guard `PycFresh` is not needed any more. -/
-theorem after_rewrite_current_fixed (hfix : dropsBytecode = true) (w0 : World) (h : List HOp) (p : Plan)
-    (hw0 : Good w0.fs) (hh : HistOk h) (hp : p.noFault) (hcoh : PycCoherent (runH w0 h)) :
-    ∃ c t, (construct defaultWriter (runH w0 h) p).res = .served c ∧
-      (construct defaultWriter (runH w0 h) p).world.fs .mod = some ⟨c, t⟩ ∧ c.complete = true ∧
-      (((construct defaultWriter (runH w0 h) p).writes ≥ 1 ∨
-          ∃ f, (runH w0 h).fs .mod = some f ∧ f.content.src = (runH w0 h).srcVer) → c.src = (runH w0 h).srcVer) :=
-  after_rewrite_current_core w0 h p hw0 hh hp hcoh (Or.inl hfix)
-
-/-- without a bytecode cache: no guard -/
-theorem after_rewrite_current (w0 : World) (h : List HOp) (p : Plan) (hw0 : Good w0.fs)
-    (hh : HistOk h) (hp : p.noFault) (hpyc : NoPyc w0) :
-    ∃ c t, (construct defaultWriter (runH w0 h) p).res = .served c ∧
-      (construct defaultWriter (runH w0 h) p).world.fs .mod = some ⟨c, t⟩ ∧ c.complete = true ∧
-      (((construct defaultWriter (runH w0 h) p).writes ≥ 1 ∨
-          ∃ f, (runH w0 h).fs .mod = some f ∧ f.content.src = (runH w0 h).srcVer) → c.src = (runH w0 h).srcVer) :=
-  after_rewrite_current_partial w0 h p hw0 hh hp (runH_nopyc h w0 hpyc).coherent ((runH_nopyc h w0 hpyc).fresh p)
-
-example : (construct defaultWriter (runH World.init exHist) {}).res = .served ⟨4, magicNumber, true, 4, 1⟩ := by
+example : (construct defaultWriter (runH World.init exHist) {}).res = .served ⟨4, magicNumber, true, 4, 1, 0⟩ := by
   decide
 
-/-- **F-C15-2** (F-C15-2 in known_findings.json): with bytecode caching on, as long as the code does not remove the
-cached bytecode after a write, a rewrite within the same mtime second that yields a file of the
-same size is loaded from the stale cache entry: the module path holds the module of source version 1, the
-Template serves version 0. -/
-theorem after_rewrite_current_counterexample : dropsBytecode = false →
-    let w := runH { World.init with pycOn := true } [.construct {}, .deleteMod, .modifySrc 0]
-    let o := construct defaultWriter w {}
-    w.srcVer = 1 ∧ o.writes = 1 ∧ (o.world.fs .mod).map (·.content.src) = some 1 ∧
-    o.res = .served ⟨0, magicNumber, true, 0, 1⟩ := by decide
+/-- the history of the repaired defect F-C15-2 with bytecode caching on - construct, delete the module,
+modify the source with an equal mtime, construct within the same second, same size - satisfies the
+hypotheses, and the current source is served -/
+example : HistOkFrom { World.init with pycOn := true } [.construct {}, .deleteMod, .modifySrc 0] :=
+  ⟨trivial, trivial, trivial, trivial⟩
+example :
+    (construct defaultWriter (runH { World.init with pycOn := true } [.construct {}, .deleteMod, .modifySrc 0]) {}).res
+      = .served ⟨1, magicNumber, true, 1, 1, 0⟩ := by decide
 
 /-! ## concurrent writers -/
 
 /-- Any number of writer processes for the same path (process `q` uses temp name `q`, writes its own
-complete module `news q`, may raise anywhere and die after any number of actions), interleaved by **any**
-schedule: at every point the module path holds what it held initially or the complete module of one of the
-writers.  Guard (F4) as above. -/
+complete module `news q`, may raise anywhere, write short, and die after any number of actions),
+interleaved by **any** schedule: at every point the module path holds what it held initially or the
+complete module of one of the writers. -/
 theorem concurrent_writers_safe (fs0 : FS) (news : Nat → Content) (nows : Nat → Nat) (fates : Nat → List Fate)
-    (crash : Nat → Option Nat) (hg : ∀ q, writeLoops = true ∨ Fate.short ∉ fates q) (sched : List Nat) :
+    (crash : Nat → Option Nat) (sched : List Nat) :
     (runSched (fs0, fun q => writerProc q (news q) (nows q) (fates q) (crash q)) sched).1 .mod = fs0 .mod ∨
     ∃ q, (runSched (fs0, fun q => writerProc q (news q) (nows q) (fates q) (crash q)) sched).1 .mod
       = some ⟨news q, nows q⟩ :=
-  (runSched_inv (fs0 .mod) news nows sched _ (init_inv fs0 news nows fates crash hg)).path
+  (runSched_inv (fs0 .mod) news nows sched _
+    (init_inv fs0 news nows fates crash (fun _ => Or.inl writeLoops_on))).path
 
 /-- a loader reading the module path at any point of any schedule finds no file or a complete module -/
 theorem concurrent_loader_sees_complete (fs0 : FS) (news : Nat → Content) (nows : Nat → Nat)
-    (fates : Nat → List Fate) (crash : Nat → Option Nat) (hg : ∀ q, writeLoops = true ∨ Fate.short ∉ fates q)
+    (fates : Nat → List Fate) (crash : Nat → Option Nat)
     (hnew : ∀ q, (news q).complete = true) (h0 : Good fs0) (sched : List Nat) :
     Good (runSched (fs0, fun q => writerProc q (news q) (nows q) (fates q) (crash q)) sched).1 := by
   intro f hf
-  rcases concurrent_writers_safe fs0 news nows fates crash hg sched with h | ⟨q, h⟩
+  rcases concurrent_writers_safe fs0 news nows fates crash sched with h | ⟨q, h⟩
   · exact h0 f (by rw [← h]; exact hf)
   · rw [h] at hf; cases hf; exact hnew q
 
-/-- three writers, one of which raises in `close`; a schedule in which writer 1 wins, then writer 0 -/
-example : (runSched (FS.empty, fun q => writerProc q ⟨1, magicNumber, true, q, 1⟩ 5
-      (if q = 2 then [.ok, .ok, .raise] else []) (if q < 3 then none else some 0))
-    [0, 1, 2, 1, 1, 0, 2, 2, 1, 1, 0, 0, 3, 0]).1 .mod = some ⟨⟨1, magicNumber, true, 0, 1⟩, 5⟩ := by decide
+/-- three writers, one of which raises in `close`, one writes short; a schedule in which writer 1 wins, then writer 0 -/
+example : (runSched (FS.empty, fun q => writerProc q ⟨1, magicNumber, true, q, 1, 0⟩ 5
+      (if q = 2 then [.ok, .ok, .raise] else if q = 1 then [.ok, .short] else []) (if q < 3 then none else some 0))
+    [0, 1, 2, 1, 1, 0, 2, 2, 1, 1, 0, 0, 3, 0]).1 .mod = some ⟨⟨1, magicNumber, true, 0, 1, 0⟩, 5⟩ := by decide
 
 /-! ## `util.verify_directory` -/
 
